@@ -120,8 +120,15 @@ func c41Compare(s *orcStep, res *run.Result, after *orcState, outcome string) {
 	if b == 0 {
 		where = "root-board"
 	}
+	reported := false
 	for x := range pre.Boards {
 		if x == b || pre.inherits(x, b) {
+			continue
+		}
+		if reported {
+			// boards are visited root first: once a changed board is reported, the boards
+			// that inherit from it change as a consequence
+			res.Inc("boards_not_compared_after_first_report")
 			continue
 		}
 		// nested inside b or inside a board that inherits from b
@@ -157,12 +164,14 @@ func c41Compare(s *orcStep, res *run.Result, after *orcState, outcome string) {
 		res.Inc("boards_compared_" + strings.ReplaceAll(rel, "-", "_"))
 		j := after.boardIndex(pre.Boards[x].Key)
 		if j < 0 {
+			reported = true
 			orcViol(res, "C41.other-board-vanished", "C41.other-board-vanished:"+rel+":"+s.Call.Kind+":"+outcome+":"+where,
 				fmt.Sprintf("edit addressed to board %q: board %s (%s) no longer exists\n%s", s.Call.Board, pre.Boards[x].Key, rel, c41Describe(s, after)))
 			continue
 		}
 		a, bb := pre.snap(x).Pi, after.snap(j).Pi
 		if a != bb {
+			reported = true
 			orcViol(res, "C41.other-board-changed", "C41.other-board-changed:"+rel+":"+s.Call.Kind+":"+outcome+":"+where,
 				fmt.Sprintf("edit addressed to board %q (%s) changed board %s (%s):\n%s\n%s", s.Call.Board, outcome, pre.Boards[x].Key, rel, proj.Diff(a, bb), c41Describe(s, after)))
 		}
